@@ -91,13 +91,14 @@ def _instr_info(types, ins, memo):
     return None
 
 
-def unambiguous(types, instrs, entry_chunk=False, memo=None):
-    """True only if the unit certainly round-trips for every valid value (conservative)."""
+def unambiguous(types, instrs, entry_chunk=False, memo=None, tail=True):
+    """True only if the unit certainly round-trips for every valid value (conservative).
+    tail: nothing is written after this unit (it is not followed by anything in its parent)"""
     memo = {} if memo is None else memo
-    return _check(types, instrs, entry_chunk, memo, top=True)
+    return _check(types, instrs, entry_chunk, memo, top=True, tail=tail)
 
 
-def _check(types, instrs, in_chunk, memo, top):
+def _check(types, instrs, in_chunk, memo, top, tail=True):
     n = len(instrs)
     seen_ff_outside = False          # 0xFF-capable data written so far outside any chunked section of this unit
     wrote_anything = False
@@ -111,7 +112,7 @@ def _check(types, instrs, in_chunk, memo, top):
         if k == "chunked":
             if seen_ff_outside:
                 return False                      # (ii)
-            if not _check(types, ins[1], True, memo, False):
+            if not _check(types, ins[1], True, memo, False, tail and last):
                 return False
             # what follows a chunked section is read non-chunked: the section must end bounded
             if not last and _ends_unbounded(types, ins[1], memo):
@@ -120,7 +121,7 @@ def _check(types, instrs, in_chunk, memo, top):
             continue
         if k == "switch":
             for c in ins[2]:
-                if not _check(types, c[3], in_chunk, memo, False):
+                if not _check(types, c[3], in_chunk, memo, False, tail and last):
                     return False
                 if not last and _ends_unbounded(types, c[3], memo):
                     return False
@@ -157,6 +158,10 @@ def _check(types, instrs, in_chunk, memo, top):
             return False
         if k == "array" and ins[3] is None and not ends_segment:
             return False
+        if k == "array" and ins[3] is None and ins[5] and not ins[6] and not (tail and last):
+            # unbounded, separated without a trailing delimiter: the reader's unconditional next_chunk() after the last
+            # element swallows a following <break/>, so whatever comes next is read as further elements
+            return False
         if in_chunk:
             # inside a chunk every 0xFF is a break: raw bytes, padding and blobs are excluded; strings are sanitised
             if k in ("field", "array", "length", "dummy"):
@@ -176,14 +181,14 @@ def _check(types, instrs, in_chunk, memo, top):
                         si = _types_info(types, t, memo)
                         if si["ff"]:
                             return False          # nested struct writes 0xFF-capable data that is not sanitised away
-                        if not unambiguous(types, types[t[1]][1], True, memo):
+                        if not unambiguous(types, types[t[1]][1], True, memo, tail and last and k == "field"):
                             return False
         else:
             if k in ("field", "array") and ins[2][0] == "struct":
                 si = _types_info(types, ins[2], memo)
                 if si["chunk"] and seen_ff_outside:
                     return False                  # (ii) through a nested struct
-                if not unambiguous(types, types[ins[2][1]][1], False, memo):
+                if not unambiguous(types, types[ins[2][1]][1], False, memo, tail and last and k == "field"):
                     return False
                 if si["unbounded"] and not last:
                     return False
